@@ -30,6 +30,7 @@ func vfStrList(name string, n int) []string {
 //
 //	overlap: result = ∃i,j. A[i] = B[j], and overlap(A,B) = overlap(B,A)
 //	in:      result = ∃j. v = L[j]; form "set" passes a pre-built set instead of a list
+//	form "again": the lists are changed in place after a first call and evaluated again
 //	form "mismatch": element types differ → an error, not false
 //	form "emptyA" / "emptyB": the empty list literal ([]string{}) on that side → false
 func VerifC17(args []string) {
@@ -81,6 +82,36 @@ func VerifC17(args []string) {
 		vfAssert(err == nil, "overlap fails on well-typed lists")
 		vfReach("overlap")
 		vfAssert(got == want, "overlap is not non-empty intersection")
+		if form == "again" {
+			// the caller changes its own lists in place between two evaluations: the answer follows the
+			// contents (the first answer is taken to be false, so that only the second call forks)
+			vfAssume(got == false)
+			want2 := false
+			switch x := a.(type) {
+			case []int64:
+				y := b.([]int64)
+				x[len(x)/2] = vfInt64("a.new")
+				y[len(y)-1] = vfInt64("b.new")
+				for _, p := range x {
+					for _, q := range y {
+						want2 = want2 || p == q
+					}
+				}
+			case []string:
+				y := b.([]string)
+				x[len(x)/2] = string([]byte{vfByte("a.new")})
+				y[len(y)-1] = string([]byte{vfByte("b.new")})
+				for _, p := range x {
+					for _, q := range y {
+						want2 = want2 || p == q
+					}
+				}
+			}
+			got3, err3 := overlap(nil, []Value{a, b})
+			vfReach("again")
+			vfAssert(err3 == nil && got3 == want2, "overlap on lists changed in place between two calls does not follow their contents")
+			return
+		}
 		if la*lb > 30 {
 			// symmetry at large balanced sizes would square the path count; both argument
 			// orders are separate units there and each is compared with the same formula
@@ -160,5 +191,92 @@ func VerifC17Expr(args []string) {
 		default:
 			vfAssert(gerr == nil && got == false, "expected false: "+src)
 		}
+	}
+}
+
+func init() {
+	vfRegister("VerifC17Literal", VerifC17Literal)
+}
+
+// VerifC17Literal: args = [notation, element kind (s | i), case, "opt" | ""]. List literals with arbitrary element texts:
+// a string list literal (elements of one and two arbitrary characters, anything but the double quote — digits
+// included) is a list of exactly those strings, an integer list literal of its decimal values; membership and
+// intersection against them behave like against the same lists passed as variables, and an operand of the
+// other element type is an error.
+func VerifC17Literal(args []string) {
+	infix, kind := args[0] == "infix", args[1]
+	vals := map[string]interface{}{"s": "", "n": int64(0), "ls": []string{}, "li": []int64{}}
+	var lit string
+	var e0s, e1s string
+	var e0i, e1i int64
+	if kind == "s" {
+		r0, r1, r2 := vfAlphabetRune("e0"), vfAlphabetRune("e1a"), vfAlphabetRune("e1b")
+		vfAssume(r0 != '"' && r1 != '"' && r2 != '"')
+		e0s, e1s = string([]rune{r0}), string([]rune{r1, r2})
+		lit = "\"" + e0s + "\" \"" + e1s + "\""
+	} else {
+		d0, d1, d2 := vfRune("d0"), vfRune("d1"), vfRune("d2")
+		vfAssume(d0 >= '0' && d0 <= '9' && d1 >= '0' && d1 <= '9' && d2 >= '0' && d2 <= '9')
+		e0i, e1i = int64(d0-'0'), int64(d1-'0')*10+int64(d2-'0')
+		lit = string([]rune{d0}) + " " + string([]rune{d1, d2})
+	}
+	list := "(" + lit + ")"
+	call := func(op, a, b string) string { return "(" + op + " " + a + " " + b + ")" }
+	if infix {
+		list = "[" + lit + "]"
+		call = func(op, a, b string) string { return op + "(" + a + ", " + b + ")" }
+	}
+	optimize := args[3] == "opt"
+	run := func(src string, bind map[string]interface{}) (Value, error) {
+		conf := NewConfig(RegVarAndOp(vals), Optimizations(optimize))
+		if infix {
+			conf.CompileOptions[InfixNotation] = true
+		}
+		e, err := Compile(conf, src)
+		vfAssert(err == nil && e != nil, "an expression with a list literal compiles")
+		all := map[string]interface{}{}
+		for k, v := range vals {
+			all[k] = v
+		}
+		for k, v := range bind {
+			all[k] = v
+		}
+		return e.Eval(NewCtxFromVars(conf, all))
+	}
+	vfReach("list-literal")
+	// one case per unit (each evaluation forks on its own comparisons)
+	switch kind + args[2] {
+	case "s0":
+		g, err := run(call("in", "s", list), map[string]interface{}{"s": e0s})
+		vfAssert(err == nil && g == true, "a string list literal does not contain its own first element")
+	case "s1":
+		g, err := run(call("in", "s", list), map[string]interface{}{"s": e1s})
+		vfAssert(err == nil && g == true, "a string list literal does not contain its own second element")
+	case "s2":
+		g, err := run(call("in", "s", list), map[string]interface{}{"s": e1s + "~"})
+		vfAssert(err == nil && g == false, "a string list literal contains a string that is not an element")
+	case "s3":
+		g, err := run(call("overlap", "ls", list), map[string]interface{}{"ls": []string{"~~~", e1s}})
+		vfAssert(err == nil && g == true, "overlap with a string list literal misses a common element")
+	case "s4":
+		g, err := run(call("overlap", list, "ls"), map[string]interface{}{"ls": []string{"~~~", e0s + "~~"}})
+		vfAssert(err == nil && g == false, "overlap with a string list literal reports a common element that is not there")
+	case "s5":
+		_, err := run(call("in", "n", list), map[string]interface{}{"n": vfInt64("n")})
+		vfAssert(err != nil, "an integer looked up in a string list literal must be an error")
+	case "s6":
+		_, err := run(call("overlap", "li", list), map[string]interface{}{"li": []int64{vfInt64("n")}})
+		vfAssert(err != nil, "overlap of an integer list with a string list literal must be an error")
+	case "i0":
+		n := vfInt64("n")
+		g, err := run(call("in", "n", list), map[string]interface{}{"n": n})
+		vfAssert(err == nil && g == (n == e0i || n == e1i), "membership in an integer list literal is not membership in its decimal values")
+	case "i1":
+		n := vfInt64("n")
+		g, err := run(call("overlap", list, "li"), map[string]interface{}{"li": []int64{n, 100}})
+		vfAssert(err == nil && g == (n == e0i || n == e1i), "overlap with an integer list literal is not intersection with its decimal values")
+	case "i2":
+		_, err := run(call("in", "s", list), map[string]interface{}{"s": "7"})
+		vfAssert(err != nil, "a string looked up in an integer list literal must be an error")
 	}
 }
